@@ -5,7 +5,7 @@ From GVL Require Import NList Wire.
 From GV_pipeline Require Import Model Proofs.
 Open Scope N_scope.
 
-Ltac prj := cbn [r_tcp r_setup r_ph r_active r_w r_queue r_wire r_con r_deliv r_hist r_lost upd_ctl upd_data].
+Ltac prj := cbn [r_tcp r_setup r_ph r_active r_w r_queue r_ring r_rp r_wp r_wire r_con r_deliv r_hist r_lost upd_ctl upd_data upd_ring].
 
 (* ---------- subsequences ---------- *)
 Inductive Subseq {A} : list A -> list A -> Prop :=
@@ -75,6 +75,17 @@ Proof.
 Qed.
 
 (* ---------- C01: delivered packets ---------- *)
+Lemma sinc_NoDup l : sinc l -> NoDup l.
+Proof.
+  induction l as [|x t IH]; cbn [sinc]; intros H; constructor.
+  - destruct H as (H & _). intros Hin. rewrite Forall_forall in H. specialize (H _ Hin). lia.
+  - apply IH. tauto.
+Qed.
+
+(* the deliveries of (m, f) within the ordered part *)
+Definition deliv_mf_ord (r : rstate) (m f : N) : list packet :=
+  map d_pkt (filter (same_mf m f) (ordered_part r)).
+
 Section Reach.
 Variable c : cfg.
 Variable rs : list rstate.
@@ -91,26 +102,43 @@ Theorem delivered_identical r d :
                d_pkt d = set_ssrc p0 s.
 Proof.
   intros Hr Hd. pose proof (reach_inv _ _ _ Hreach) as Hi. unfold sinv in Hi. rewrite Forall_forall in Hi.
-  destruct (Hi _ Hr) as [_ _ _ H4 _ _ _ _ _ _]. rewrite Forall_forall in H4.
+  destruct (Hi _ Hr) as [_ _ _ _ H4 _ _ _ _ _ _ _]. rewrite Forall_forall in H4.
   destruct (H4 _ Hd) as (p0 & fs & s & H1 & H2 & H3 & H5). exists p0, s. repeat split; auto.
   unfold ssrc_of. rewrite H2. now rewrite (find_fmt_nnth _ _ _ _ H3).
 Qed.
 
-(* per format, in the order written and at most once *)
-Theorem delivered_in_order_once r m f :
-  In r (s_readers st) -> sinc (didxs (filter (same_mf m f) (r_deliv r))).
+(* at most once: no written packet is delivered twice to the same reader, on any transport *)
+Theorem delivered_at_most_once r : In r (s_readers st) -> NoDup (didxs (r_deliv r)).
 Proof.
   intros Hr. pose proof (reach_inv _ _ _ Hreach) as Hi. unfold sinv in Hi. rewrite Forall_forall in Hi.
-  destruct (Hi _ Hr) as [_ _ _ _ H5 _ _ _ _ _]. now apply inc_mf_sinc.
+  destruct (Hi _ Hr) as [_ _ _ _ _ _ _ _ _ H9 (_ & Hs) _].
+  apply (NoDup_count_occ N.eq_dec). intros n.
+  pose proof (proj1 (NoDup_count_occ N.eq_dec _) (sinc_NoDup _ Hs) n) as Hn.
+  specialize (H9 n). unfold cnt in H9. lia.
 Qed.
 
-Theorem delivered_is_subsequence r m f s :
-  In r (s_readers st) -> ssrc_of c m f = Some s ->
-  Subseq (deliv_mf r m f) (map (fun p => set_ssrc p s) (written_mf W m f)).
+(* in the order written: for UDP readers always; for TCP readers among the packets that were pushed
+   while the reader's writer was open *)
+Theorem delivered_in_order_partial r m f :
+  In r (s_readers st) -> sinc (didxs (filter (same_mf m f) (ordered_part r))).
 Proof.
-  intros Hr Hs. unfold deliv_mf. apply (subseq_indexed (fun p => set_ssrc p s) m f W 0).
-  - now apply delivered_in_order_once.
+  intros Hr. pose proof (reach_inv _ _ _ Hreach) as Hi. unfold sinv in Hi. rewrite Forall_forall in Hi.
+  destruct (Hi _ Hr) as [_ _ _ _ _ H5 _ _ _ _ _ _]. now apply inc_mf_sinc.
+Qed.
+
+Lemma ordered_part_incl r d : In d (ordered_part r) -> In d (r_deliv r).
+Proof.
+  unfold ordered_part, nl_d. destruct (r_tcp r); [|auto]. intros H. apply filter_In in H. tauto.
+Qed.
+
+Theorem delivered_is_subsequence_partial r m f s :
+  In r (s_readers st) -> ssrc_of c m f = Some s ->
+  Subseq (deliv_mf_ord r m f) (map (fun p => set_ssrc p s) (written_mf W m f)).
+Proof.
+  intros Hr Hs. unfold deliv_mf_ord. apply (subseq_indexed (fun p => set_ssrc p s) m f W 0).
+  - now apply delivered_in_order_partial.
   - apply Forall_forall. intros d Hd. apply filter_In in Hd. destruct Hd as (Hd & Hmf).
+    apply ordered_part_incl in Hd.
     unfold same_mf in Hmf. apply andb_prop in Hmf. destruct Hmf as (Em & Ef).
     assert (d_m d = m) by lia. assert (d_f d = f) by lia.
     destruct (delivered_identical r d Hr Hd) as (p0 & s' & H1 & H2 & H3). subst m f.
@@ -142,7 +170,7 @@ Theorem announced_ssrc r d m s :
   In r (s_readers st) -> In d (r_deliv r) -> d_m d = m -> announce c m = Some s -> p_ssrc (d_pkt d) = s.
 Proof.
   intros Hr Hd Hm Ha. pose proof (reach_inv _ _ _ Hreach) as Hi. unfold sinv in Hi. rewrite Forall_forall in Hi.
-  destruct (Hi _ Hr) as [_ _ _ H4 _ _ _ _ _ _]. rewrite Forall_forall in H4.
+  destruct (Hi _ Hr) as [_ _ _ _ H4 _ _ _ _ _ _ _]. rewrite Forall_forall in H4.
   destruct (H4 _ Hd) as (p0 & fs & s' & H1 & H2 & H3 & H5). subst m.
   unfold announce in Ha. rewrite H2 in Ha. destruct fs as [|[pt0 s0] [|? ?]]; try discriminate.
   inversion Ha; subst s0. unfold find_fmt in H3. cbn [find_fmt_aux] in H3.
@@ -160,28 +188,31 @@ Qed.
    what was explicitly discarded *)
 Theorem conservation r :
   In r (s_readers st) ->
-  Permutation (r_hist r) (didxs (r_deliv r) ++ r_lost r ++ idxs (r_wire r) ++ idxs (r_queue r)).
+  Permutation (r_hist r)
+    (didxs (r_deliv r) ++ r_lost r ++ idxs (r_wire r) ++ idxs (r_queue r) ++ idxs (ritems (r_ring r))).
 Proof.
   intros Hr. pose proof (reach_inv _ _ _ Hreach) as Hi. unfold sinv in Hi. rewrite Forall_forall in Hi.
-  destruct (Hi _ Hr) as [_ _ _ _ _ _ _ _ H9 _].
+  destruct (Hi _ Hr) as [_ _ _ _ _ _ _ _ _ H9 _ _].
   apply (Permutation_count_occ N.eq_dec). intros n. specialize (H9 n). unfold cnt in H9.
   rewrite !count_occ_app. lia.
 Qed.
 
 Theorem accepted_delivered_inflight_or_discarded r idx :
   In r (s_readers st) -> In idx (r_hist r) ->
-  In idx (didxs (r_deliv r)) \/ In idx (idxs (r_wire r)) \/ In idx (idxs (r_queue r)) \/ In idx (r_lost r).
+  In idx (didxs (r_deliv r)) \/ In idx (idxs (r_wire r)) \/ In idx (idxs (r_queue r)) \/
+  In idx (idxs (ritems (r_ring r))) \/ In idx (r_lost r).
 Proof.
   intros Hr Hin. pose proof (Permutation_in _ (conservation r Hr) Hin) as H.
   rewrite !in_app_iff in H. tauto.
 Qed.
 
-(* over TCP the reader sees all formats in one global order: the order of writing *)
-Theorem tcp_global_order r :
-  In r (s_readers st) -> r_tcp r = true -> sinc (didxs (r_deliv r)).
+(* over TCP the reader sees all formats in one global order, the order of writing - among the packets
+   pushed while its writer was open *)
+Theorem tcp_global_order_partial r :
+  In r (s_readers st) -> r_tcp r = true -> sinc (didxs (nl_d (r_deliv r))).
 Proof.
   intros Hr Ht. pose proof (reach_inv _ _ _ Hreach) as Hi. unfold sinv in Hi. rewrite Forall_forall in Hi.
-  destruct (Hi _ Hr) as [_ _ _ _ _ H6 _ _ _ _]. specialize (H6 Ht). now apply sinc_drop_tail in H6.
+  destruct (Hi _ Hr) as [_ _ _ _ _ _ H6 _ _ _ _ _]. specialize (H6 Ht). now apply sinc_drop_tail in H6.
 Qed.
 
 (* once PLAY has completed (and until a stop is requested) the reader is active and has a writer *)
@@ -189,7 +220,17 @@ Theorem playing_is_active r :
   In r (s_readers st) -> r_ph r = PhPlaying -> r_active r = true /\ exists b, r_w r = WOpen b.
 Proof.
   intros Hr Hp. pose proof (reach_inv _ _ _ Hreach) as Hi. unfold sinv in Hi. rewrite Forall_forall in Hi.
-  destruct (Hi _ Hr) as [_ _ _ _ _ _ _ H8 _ _]. unfold ph_inv in H8. now rewrite Hp in H8.
+  destruct (Hi _ Hr) as [_ _ _ _ _ _ _ _ H8 _ _ _]. unfold ph_inv in H8. now rewrite Hp in H8.
+Qed.
+
+(* a writer that is closed but not yet dropped exists only while a stop is being processed *)
+Theorem closed_writer_only_when_stopping r b :
+  In r (s_readers st) -> r_w r = WClosed b -> r_ph r = PhStopReq.
+Proof.
+  intros Hr Hw. pose proof (reach_inv _ _ _ Hreach) as Hi. unfold sinv in Hi. rewrite Forall_forall in Hi.
+  destruct (Hi _ Hr) as [_ _ _ _ _ _ _ _ H8 _ _ _]. unfold ph_inv in H8.
+  destruct (r_ph r); auto; try (exfalso; now apply (H8 b)).
+  destruct H8 as (_ & b' & H8). congruence.
 Qed.
 End Reach.
 
@@ -220,7 +261,7 @@ Lemma step_reader c st s st' k r :
   step c st s = Some st' -> nnth k (s_readers st) = Some r ->
   exists r', nnth k (s_readers st') = Some r' /\
    ( (r' = r /\ ~ targets s k)
-   \/ (exists kk, s = SCtl kk k /\ r_ctl kk r = Some r')
+   \/ (exists kk, s = SCtl kk k /\ r_ctl c kk r = Some r')
    \/ (exists m p full f ss fs, s = SWrite m p full /\ nnth m (c_medias c) = Some fs /\
          find_fmt fs (p_pt p) = Some (f, ss) /\
          r' = fst (r_push c m f (nlen (s_written st)) (set_ssrc p ss) r) /\
@@ -237,7 +278,7 @@ Proof.
     destruct (Hn k) as (Hn1 & Hn2). rewrite Hk in Hn1. cbn [option_map] in Hn1.
     eexists; split; [exact Hn1|]. right; right; left. exists m, p, full, f, ss, fs.
     repeat split; auto; apply (Hn2 _ Hk).
-  - destruct (upd_nth j (r_ctl kk) (s_readers st)) as [rs'|] eqn:E; [|discriminate]. inversion H; subst.
+  - destruct (upd_nth j (r_ctl c kk) (s_readers st)) as [rs'|] eqn:E; [|discriminate]. inversion H; subst.
     cbn [s_readers]. rewrite (upd_nth_nnth _ _ _ _ k E).
     destruct (N.eqb_spec k j) as [->|Hne]; [|exists r; split; [exact Hk|left; split; [reflexivity|cbn; congruence]]].
     rewrite Hk. destruct (upd_nth_enabled _ _ _ _ _ E Hk) as (r' & Ec). rewrite Ec.
@@ -259,62 +300,97 @@ Qed.
 
 Definition is_discard (kk : ctl) : Prop := kk = CCloseW \/ kk = CNilW \/ kk = CCClose.
 
-Lemma ctl_effect kk r r' :
-  r_ctl kk r = Some r' ->
+(* nothing in the transport or among the deliveries was pushed after a Close, and the closed ring is empty *)
+Definition clean (r : rstate) : Prop :=
+  Forall (fun x => i_late x = false) (r_wire r) /\ Forall (fun d => d_late d = false) (r_deliv r) /\
+  ritems (r_ring r) = [].
+
+Lemma ctl_effect c W kk r r' :
+  rinv c W r -> r_ctl c kk r = Some r' ->
   r_tcp r' = r_tcp r /\ r_setup r' = r_setup r /\
   (r_lost r' = r_lost r \/ (r_ph r = PhStopReq /\ is_discard kk)) /\
-  (r_ph r' = PhStopReq -> r_ph r = PhStopReq \/ kk = CStopReq).
+  (r_ph r' = PhStopReq -> r_ph r = PhStopReq \/ kk = CStopReq) /\
+  (r_ph r <> PhStopReq -> clean r -> clean r').
 Proof.
-  unfold is_discard. intros H. destruct kk; cbn [r_ctl] in H.
+  unfold is_discard, clean. intros Hi H.
+  pose proof Hi as [_ (_ & Hq) _ _ _ _ _ _ Hph _ _ _].
+  destruct kk; cbn [r_ctl] in H.
   - unfold r_playreq in H. destruct (r_ph r), (r_w r), (r_active r); try discriminate; inversion H; subst; prj;
-      repeat split; auto; discriminate.
+      repeat split; auto; try discriminate; tauto.
   - unfold r_create in H. destruct (r_ph r), (r_w r); try discriminate; inversion H; subst; prj;
-      repeat split; auto; discriminate.
+      repeat split; auto; try discriminate; tauto.
   - unfold r_activate in H. destruct (r_ph r), (r_w r) as [|b|b]; try discriminate.
-    destruct (r_tcp r || b); [|discriminate]. inversion H; subst; prj. repeat split; auto; discriminate.
+    destruct (r_tcp r || b); [|discriminate]. inversion H; subst; prj. repeat split; auto; try discriminate; tauto.
   - unfold r_start in H. destruct (r_w r) as [|[|]|]; try discriminate; inversion H; subst; prj.
-    repeat split; auto.
+    repeat split; auto; tauto.
   - unfold r_playdone in H. destruct (r_ph r), (r_w r) as [|b|b]; try discriminate.
-    destruct (r_active r); [|discriminate]. inversion H; subst; prj. repeat split; auto; discriminate.
-  - unfold r_stopreq in H. destruct (r_ph r); try discriminate; inversion H; subst; prj; repeat split; auto.
-  - unfold r_drain in H. destruct (r_w r) as [|[|]|[|]], (r_queue r); try discriminate; inversion H; subst; prj;
-      repeat split; auto.
+    destruct (r_active r); [|discriminate]. inversion H; subst; prj. repeat split; auto; try discriminate; tauto.
+  - unfold r_stopreq in H. destruct (r_ph r); try discriminate; inversion H; subst; prj; repeat split; auto; tauto.
+  - unfold r_drain in H. destruct (r_w r) as [|[|]|[|]] eqn:Ew; try discriminate.
+    + destruct (r_queue r) as [|x q]; [discriminate|]. inversion H; subst; prj. repeat split; auto; try tauto.
+      match goal with Hc : _ /\ _ /\ _ |- _ => destruct Hc as (C1 & _) end.
+      apply Forall_app; split; auto. inversion Hq; subst. auto.
+    + destruct (nnth (r_rp r) (r_ring r)) as [[x|]|]; try discriminate. inversion H; subst; prj.
+      assert (Hp : r_ph r = PhStopReq).
+      { unfold ph_inv in Hph. destruct (r_ph r); auto; try (exfalso; now apply (Hph true)).
+        destruct Hph as (_ & b & Hb). congruence. }
+      repeat split; auto; congruence.
   - unfold r_closew in H. destruct (r_ph r) eqn:E, (r_w r); try discriminate; inversion H; subst; prj.
-    repeat split; auto.
+    repeat split; auto; congruence.
   - unfold r_nilw in H. destruct (r_ph r) eqn:E, (r_w r); try discriminate; inversion H; subst; prj.
-    repeat split; auto.
-  - unfold r_deact in H. destruct (r_ph r) eqn:E; try discriminate; inversion H; subst; prj. repeat split; auto.
+    repeat split; auto; congruence.
+  - unfold r_deact in H. destruct (r_ph r) eqn:E; try discriminate; inversion H; subst; prj. repeat split; auto; tauto.
   - unfold r_stopdone in H. destruct (r_ph r) eqn:E, (r_w r); try discriminate.
     destruct (r_active r); [discriminate|].
     destruct (r_tcp r) eqn:Etcp; [destruct (r_wire r); [|discriminate]|]; inversion H; subst; prj;
-      repeat split; auto; discriminate.
-  - unfold r_cclose in H. destruct (r_ph r) eqn:E; try discriminate; inversion H; subst; prj. repeat split; auto.
+      repeat split; auto; try discriminate; congruence.
+  - unfold r_cclose in H. destruct (r_ph r) eqn:E; try discriminate; inversion H; subst; prj.
+    repeat split; auto; congruence.
 Qed.
 
-Lemma push_effect c m f idx p r :
+Lemma push_effect c W m f idx p r :
+  rinv c W r ->
   let r' := fst (r_push c m f idx p r) in
-  r_tcp r' = r_tcp r /\ r_setup r' = r_setup r /\ r_lost r' = r_lost r /\ r_ph r' = r_ph r.
+  r_tcp r' = r_tcp r /\ r_setup r' = r_setup r /\ r_lost r' = r_lost r /\ r_ph r' = r_ph r /\
+  (r_ph r <> PhStopReq -> clean r -> clean r').
 Proof.
-  unfold r_push. destruct (r_active r); [|cbn; auto].
-  destruct (chan_of (r_setup r) m); [|cbn; auto].
-  destruct (r_w r); [cbn; auto| |]; destruct (nlen (r_queue r) <? c_Q c); cbn; auto.
+  intros Hi. pose proof Hi as [_ _ _ _ _ _ _ _ Hph _ _ _]. unfold clean.
+  unfold r_push. destruct (r_active r); [|cbn; tauto].
+  destruct (chan_of (r_setup r) m); [|cbn; tauto].
+  destruct (r_w r) as [|b|b] eqn:Ew; [cbn; tauto| |].
+  - destruct (nlen (r_queue r) <? c_Q c); cbn; tauto.
+  - destruct (nnth (r_wp r) (r_ring r)) as [[y|]|]; cbn; try tauto.
+    assert (Hp : r_ph r = PhStopReq).
+    { unfold ph_inv in Hph. destruct (r_ph r); auto; try (exfalso; now apply (Hph b)).
+      destruct Hph as (_ & b' & Hb). congruence. }
+    repeat split; auto; congruence.
 Qed.
 
 Lemma arrive_effect c W i r r' d :
   rinv c W r -> r_arrive c i r = Some (r', d) ->
   r_tcp r' = r_tcp r /\ r_setup r' = r_setup r /\ r_ph r' = r_ph r /\
-  (r_tcp r = true -> r_lost r' = r_lost r /\ d <> None).
+  (r_tcp r = true -> r_lost r' = r_lost r /\ d <> None) /\
+  (clean r -> clean r').
 Proof.
-  intros Hi H. pose proof Hi as [H1 _ H3 _ _ _ _ _ _ _].
+  intros Hi H. pose proof Hi as [H1 _ _ H3 _ _ _ _ _ _ _ _]. unfold clean.
   unfold r_arrive in H. destruct (r_con r); cbn [negb] in H; [|discriminate].
   destruct (r_tcp r && negb (i =? 0)); [discriminate|].
   destruct (take_nth i (r_wire r)) as [[x wi]|] eqn:Et; [|discriminate].
-  destruct (take_nth_split _ _ _ _ Et) as (a & b & Ew & _ & _).
+  destruct (take_nth_split _ _ _ _ Et) as (a & b & Ew & -> & _).
+  assert (Hcl : Forall (fun x => i_late x = false) (r_wire r) ->
+                Forall (fun x => i_late x = false) (a ++ b) /\ i_late x = false).
+  { rewrite Ew. intros HF. apply Forall_app in HF. destruct HF as (Ha & Hb). inversion Hb; subst.
+    split; [apply Forall_app; split; auto|auto]. }
   rewrite Ew in H3. apply Forall_app in H3. destruct H3 as (_ & H3b). inversion H3b as [|? ? Hx _]; subst.
   destruct (demux_ok _ _ _ _ H1 Hx) as (fs & s & D1 & D2 & D3 & _). rewrite D1, D2, D3 in H.
   destruct (r_tcp r) eqn:Etcp; cbn [orb] in H.
-  - inversion H; subst; prj. repeat split; auto. discriminate.
-  - destruct (newer (r_deliv r) (i_m x) (i_f x) (i_idx x)); inversion H; subst; prj; repeat split; auto; discriminate.
+  - inversion H; subst; prj. repeat split; auto; try discriminate.
+    + apply Hcl; tauto.
+    + apply Forall_app; split; [tauto|]. constructor; [|constructor]. cbn [d_late]. apply Hcl; tauto.
+    + tauto.
+  - destruct (newer (r_deliv r) (i_m x) (i_f x) (i_idx x)); inversion H; subst; prj; repeat split; auto; try discriminate;
+      try (apply Hcl; tauto); try tauto.
+    apply Forall_app; split; [tauto|]. constructor; [|constructor]. cbn [d_late]. apply Hcl; tauto.
 Qed.
 
 Lemma lose_effect i r r' :
@@ -335,10 +411,11 @@ Proof.
   rewrite Hk' in Hr1. inversion Hr1; subst r1.
   destruct Hc as [(-> & _)|[(kk & -> & Hc)|[(m & p & full & f & ss & fs & -> & _ & _ & -> & _)|[(i & o & d & -> & Hc)|(i & -> & Hc)]]]].
   - now left.
-  - destruct (ctl_effect _ _ _ Hc) as (_ & _ & [Hl|(Hp & Hd)] & _); [now left|right; eauto].
-  - left. apply push_effect.
+  - unfold sinv in Hi. pose proof (Forall_nnth _ _ _ _ Hi Hk) as Hr.
+    destruct (ctl_effect _ _ _ _ _ Hr Hc) as (_ & _ & [Hl|(Hp & Hd)] & _); [now left|right; eauto].
+  - left. unfold sinv in Hi. pose proof (Forall_nnth _ _ _ _ Hi Hk) as Hr. now apply (push_effect _ _ m f _ _ _ Hr).
   - left. unfold sinv in Hi. pose proof (Forall_nnth _ _ _ _ Hi Hk) as Hr.
-    destruct (arrive_effect _ _ _ _ _ _ Hr Hc) as (_ & _ & _ & Hl). now apply Hl.
+    destruct (arrive_effect _ _ _ _ _ _ Hr Hc) as (_ & _ & _ & Hl & _). now apply Hl.
   - apply lose_effect in Hc. destruct Hc as (Hc & _). congruence.
 Qed.
 
@@ -358,7 +435,7 @@ Proof.
   assert (Hpush : forall f ss,
      r_push c m f (nlen (s_written st)) (set_ssrc p ss) r =
        if nlen (r_queue r) <? c_Q c
-       then (upd_data r (r_queue r ++ [mkItem ch m f (nlen (s_written st)) (set_ssrc p ss)]) (r_wire r) (r_deliv r)
+       then (upd_data r (r_queue r ++ [mkItem ch m f (nlen (s_written st)) false (set_ssrc p ss)]) (r_wire r) (r_deliv r)
                       (r_hist r ++ [nlen (s_written st)]) (r_lost r), false)
        else (r, true)).
   { intros f ss. unfold r_push. now rewrite Ha, Hch, Hw. }
@@ -374,49 +451,63 @@ Qed.
 (* ---------- TCP completeness along a whole run ---------- *)
 Lemma exec_nostop c k : forall steps st st' r,
   sinv c st -> exec c st steps = Some st' ->
-  nnth k (s_readers st) = Some r -> r_tcp r = true -> r_ph r <> PhStopReq ->
+  nnth k (s_readers st) = Some r -> r_tcp r = true -> r_ph r <> PhStopReq -> clean r ->
   Forall (fun s => s <> SCtl CStopReq k) steps ->
   exists r', nnth k (s_readers st') = Some r' /\ r_tcp r' = true /\ r_setup r' = r_setup r /\
-             r_ph r' <> PhStopReq /\ r_lost r' = r_lost r.
+             r_ph r' <> PhStopReq /\ r_lost r' = r_lost r /\ clean r'.
 Proof.
-  induction steps as [|s t IH]; intros st st' r Hi H Hk Ht Hp HF; cbn [exec] in H.
-  - inversion H; subst. exists r. auto.
+  induction steps as [|s t IH]; intros st st' r Hi H Hk Ht Hp Hcl HF; cbn [exec] in H.
+  - inversion H; subst. exists r. repeat split; auto; apply Hcl.
   - destruct (step c st s) as [st1|] eqn:E; [|discriminate]. inversion HF as [|? ? Hs HF']; subst.
     destruct (step_reader _ _ _ _ _ _ E Hk) as (r1 & Hr1 & Hc).
-    assert (Hstep : r_tcp r1 = true /\ r_setup r1 = r_setup r /\ r_ph r1 <> PhStopReq /\ r_lost r1 = r_lost r).
+    pose proof (Forall_nnth _ _ _ _ Hi Hk) as Hr.
+    assert (Hstep : r_tcp r1 = true /\ r_setup r1 = r_setup r /\ r_ph r1 <> PhStopReq /\ r_lost r1 = r_lost r /\ clean r1).
     { destruct Hc as [(-> & _)|[(kk & -> & Hc)|[(m & p & full & f & ss & fs & -> & _ & _ & -> & _)|[(i & o & d & -> & Hc)|(i & -> & Hc)]]]].
       - auto.
-      - destruct (ctl_effect _ _ _ Hc) as (H1 & H2 & H3 & H4). repeat split; try congruence.
+      - destruct (ctl_effect _ _ _ _ _ Hr Hc) as (H1 & H2 & H3 & H4 & H5). repeat split; try congruence; auto.
         + intros Hq. destruct (H4 Hq) as [Hq1|Hq1]; [contradiction|]. subst kk. now apply Hs.
         + destruct H3 as [Hq1|(Hq1 & _)]; [assumption|contradiction].
-      - destruct (push_effect c m f (nlen (s_written st)) (set_ssrc p ss) r) as (H1 & H2 & H3 & H4).
-        repeat split; congruence.
-      - unfold sinv in Hi. pose proof (Forall_nnth _ _ _ _ Hi Hk) as Hr.
-        destruct (arrive_effect _ _ _ _ _ _ Hr Hc) as (H1 & H2 & H3 & H4). destruct (H4 Ht) as (H5 & _).
-        repeat split; congruence.
+        + now apply H5.
+        + now apply H5.
+        + now apply H5.
+      - destruct (push_effect c _ m f (nlen (s_written st)) (set_ssrc p ss) r Hr) as (H1 & H2 & H3 & H4 & H5).
+        repeat split; try congruence; now apply H5.
+      - destruct (arrive_effect _ _ _ _ _ _ Hr Hc) as (H1 & H2 & H3 & H4 & H5). destruct (H4 Ht) as (H6 & _).
+        repeat split; try congruence; now apply H5.
       - apply lose_effect in Hc. destruct Hc as (Hc & _). congruence. }
-    destruct Hstep as (G1 & G2 & G3 & G4).
-    destruct (IH _ _ _ (step_inv _ _ _ _ Hi E) H Hr1 G1 G3 HF') as (r' & Q1 & Q2 & Q3 & Q4 & Q5).
-    exists r'. repeat split; congruence.
+    destruct Hstep as (G1 & G2 & G3 & G4 & G5).
+    destruct (IH _ _ _ (step_inv _ _ _ _ Hi E) H Hr1 G1 G3 G5 HF') as (r' & Q1 & Q2 & Q3 & Q4 & Q5 & Q6).
+    exists r'. repeat split; try congruence; apply Q6.
+Qed.
+
+Lemma nl_d_clean dl : Forall (fun d => d_late d = false) dl -> nl_d dl = dl.
+Proof.
+  unfold nl_d. induction 1 as [|d t Hd _ IH]; cbn [filter]; [reflexivity|]. rewrite Hd. cbn. now rewrite IH.
 Qed.
 
 (* For a TCP reader that was never asked to stop (no PAUSE, TEARDOWN or close), in every run: nothing
-   the queue accepted is lost - it has been delivered or is still in flight. *)
+   the queue accepted is lost - it has been delivered or is still in flight - and everything delivered
+   arrived in the order of writing. *)
 Theorem tcp_complete c rs steps st k su :
   readers_ok rs -> nnth k rs = Some (new_reader true su) ->
   exec c (init rs) steps = Some st ->
   Forall (fun s => s <> SCtl CStopReq k) steps ->
   exists r, nnth k (s_readers st) = Some r /\ r_tcp r = true /\ r_lost r = [] /\
+    sinc (didxs (r_deliv r)) /\
     forall idx, In idx (r_hist r) ->
       In idx (didxs (r_deliv r)) \/ In idx (idxs (r_wire r)) \/ In idx (idxs (r_queue r)).
 Proof.
   intros Hok Hk H HF.
+  assert (Hcl0 : clean (new_reader true su)) by (repeat split; constructor).
   destruct (exec_nostop c k steps (init rs) st (new_reader true su) (init_inv c rs Hok) H Hk eq_refl) as
-    (r & Q1 & Q2 & _ & _ & Q5); [discriminate|exact HF|].
-  exists r. repeat split; auto. intros idx Hin.
+    (r & Q1 & Q2 & _ & _ & Q5 & (Q6 & Q7 & Q8)); [discriminate|exact Hcl0|exact HF|].
   assert (Hre : reach c rs st) by (split; eauto).
-  destruct (accepted_delivered_inflight_or_discarded _ _ _ Hre r idx (nnth_In _ _ _ Q1) Hin) as [?|[?|[?|Hl]]]; auto.
-  rewrite Q5 in Hl. cbn in Hl. contradiction.
+  exists r. repeat split; auto.
+  - pose proof (tcp_global_order_partial _ _ _ Hre r (nnth_In _ _ _ Q1) Q2) as Ho. now rewrite (nl_d_clean _ Q7) in Ho.
+  - intros idx Hin.
+    destruct (accepted_delivered_inflight_or_discarded _ _ _ Hre r idx (nnth_In _ _ _ Q1) Hin) as [?|[?|[?|[Hl|Hl]]]]; auto.
+    + rewrite Q8 in Hl. cbn in Hl. contradiction.
+    + rewrite Q5 in Hl. cbn in Hl. contradiction.
 Qed.
 
 (* ... and once its queue and transport have drained, everything accepted has been delivered *)
@@ -427,10 +518,67 @@ Corollary tcp_complete_drained c rs steps st k su :
   exists r, nnth k (s_readers st) = Some r /\
     (r_wire r = [] -> r_queue r = [] -> Permutation (r_hist r) (didxs (r_deliv r)) /\ sinc (didxs (r_deliv r))).
 Proof.
-  intros Hok Hk H HF. destruct (tcp_complete _ _ _ _ _ _ Hok Hk H HF) as (r & Q1 & Q2 & Q3 & _).
+  intros Hok Hk H HF.
+  assert (Hcl0 : clean (new_reader true su)) by (repeat split; constructor).
+  destruct (exec_nostop c k steps (init rs) st (new_reader true su) (init_inv c rs Hok) H Hk eq_refl) as
+    (r & Q1 & Q2 & _ & _ & Q5 & (Q6 & Q7 & Q8)); [discriminate|exact Hcl0|exact HF|].
+  destruct (tcp_complete _ _ _ _ _ _ Hok Hk H HF) as (r0 & Q1' & _ & Q3 & Q4 & _).
+  rewrite Q1 in Q1'. inversion Q1'; subst r0.
   exists r. split; [exact Q1|]. intros Hw Hq.
-  assert (Hre : reach c rs st) by (split; eauto). split.
-  - pose proof (conservation _ _ _ Hre r (nnth_In _ _ _ Q1)) as HP. rewrite Q3, Hw, Hq in HP.
-    cbn [idxs map app] in HP. now rewrite app_nil_r in HP.
-  - apply (tcp_global_order _ _ _ Hre r (nnth_In _ _ _ Q1) Q2).
+  assert (Hre : reach c rs st) by (split; eauto). split; [|exact Q4].
+  pose proof (conservation _ _ _ Hre r (nnth_In _ _ _ Q1)) as HP. rewrite Q3, Hw, Hq, Q8 in HP.
+  cbn [idxs map app] in HP. now rewrite app_nil_r in HP.
+Qed.
+
+(* ---------- the order property is FALSE of the faithful model ---------- *)
+(* capacity 4, one media with one format, one TCP reader.  Two packets are queued (the consumer has not
+   run yet) when PAUSE arrives; Close() clears the slots but keeps the indices two apart; four more
+   packets are pushed before writer = nil; the still-running consumer executes them starting at the stale
+   read index: 4, 5, 2, 3. *)
+Definition rf_cfg := mkCfg 4 [[(96, 7)]].
+Definition rf_rs := [new_reader true [(0, 0)]].
+Definition rf_p (seq : N) := mkP seq 0 false 96 0 [seq].
+Definition rf_steps :=
+  [ SCtl CPlayReq 0; SCtl CCreate 0; SCtl CActivate 0; SCtl CStart 0; SCtl CPlayDone 0;
+    SWrite 0 (rf_p 100) []; SWrite 0 (rf_p 101) [];
+    SCtl CStopReq 0; SCtl CCloseW 0;
+    SWrite 0 (rf_p 102) []; SWrite 0 (rf_p 103) []; SWrite 0 (rf_p 104) []; SWrite 0 (rf_p 105) [];
+    SWrite 0 (rf_p 106) [0];
+    SCtl CDrain 0; SCtl CDrain 0; SCtl CDrain 0; SCtl CDrain 0;
+    SArrive 0 0 (Some (mkObs 0 0 4 (set_ssrc (rf_p 104) 7)));
+    SArrive 0 0 (Some (mkObs 0 0 5 (set_ssrc (rf_p 105) 7)));
+    SArrive 0 0 (Some (mkObs 0 0 2 (set_ssrc (rf_p 102) 7)));
+    SArrive 0 0 (Some (mkObs 0 0 3 (set_ssrc (rf_p 103) 7)));
+    SCtl CNilW 0; SCtl CDeact 0; SCtl CStopDone 0 ].
+
+Theorem delivered_in_order_refuted :
+  exists c rs steps st r m f,
+    readers_ok rs /\ exec c (init rs) steps = Some st /\ In r (s_readers st) /\ r_tcp r = true /\
+    didxs (filter (same_mf m f) (r_deliv r)) = [4; 5; 2; 3] /\
+    ~ sinc (didxs (filter (same_mf m f) (r_deliv r))).
+Proof.
+  exists rf_cfg, rf_rs, rf_steps.
+  destruct (exec rf_cfg (init rf_rs) rf_steps) as [st|] eqn:E; [|vm_compute in E; discriminate].
+  exists st. vm_compute in E. inversion E; subst st. clear E.
+  eexists. exists 0, 0. split.
+  - repeat constructor. eexists; eexists. split; [reflexivity|]. cbn. repeat constructor. intros [].
+  - split; [reflexivity|]. split; [left; reflexivity|]. split; [reflexivity|]. split; [reflexivity|].
+    cbn. intros (H & _). inversion H as [|? ? _ H']. inversion H' as [|? ? H'' _]. lia.
+Qed.
+
+Theorem delivered_is_subsequence_refuted :
+  exists c rs steps st r m f s,
+    readers_ok rs /\ exec c (init rs) steps = Some st /\ In r (s_readers st) /\ ssrc_of c m f = Some s /\
+    ~ Subseq (deliv_mf r m f) (map (fun p => set_ssrc p s) (written_mf (s_written st) m f)).
+Proof.
+  exists rf_cfg, rf_rs, rf_steps.
+  destruct (exec rf_cfg (init rf_rs) rf_steps) as [st|] eqn:E; [|vm_compute in E; discriminate].
+  exists st. vm_compute in E. inversion E; subst st. clear E.
+  eexists. exists 0, 0, 7. split.
+  - repeat constructor. eexists; eexists. split; [reflexivity|]. cbn. repeat constructor. intros [].
+  - split; [reflexivity|]. split; [left; reflexivity|]. split; [reflexivity|].
+    vm_compute. intros H.
+    repeat match goal with
+    | H : Subseq _ _ |- _ => inversion H; clear H; subst
+    end.
 Qed.
